@@ -14,7 +14,7 @@ structure PKey where
   material : Nat      -- KeyData.KeyMaterialType: 0 UNKNOWN, 1 SYMMETRIC, 2 ASYM_PRIVATE, 3 ASYM_PUBLIC, 4 REMOTE
   status : Nat        -- KeyStatusType: 0 UNKNOWN, 1 ENABLED, 2 DISABLED, 3 DESTROYED
   keyId : Nat
-  prefixType : Nat    -- OutputPrefixType: 0 UNKNOWN, 1 TINK, 2 LEGACY, 3 RAW, 4 CRUNCHY
+  prefixType : Nat    -- OutputPrefixType: 0 UNKNOWN, 1 TINK, 2 LEGACY, 3 RAW, 4 CRUNCHY, 5 WITH_ID_REQUIREMENT
   parseOk : Bool
   deriving DecidableEq, Repr
 
@@ -25,7 +25,7 @@ structure PKeyset where
 
 def validKey (k : PKey) : Bool :=
   k.hasKeyData &&
-  (k.prefixType == 1 || k.prefixType == 2 || k.prefixType == 3 || k.prefixType == 4) &&
+  (k.prefixType == 1 || k.prefixType == 2 || k.prefixType == 3 || k.prefixType == 4 || k.prefixType == 5) &&
   (k.status == 1 || k.status == 2 || k.status == 3)
 
 structure VState where
